@@ -11,7 +11,7 @@ from props import C11 as base
 MODEL = "clientreq"
 MODULE = "Model.ClientReq"
 THEOREMS = ["C20_new_requests_refused", "C20_new_operations_fail", "C20_second_close", "C20_metadata_cleared",
-            "C20_pending_end", "C20_closed_means", "C20_pending_requests_fail", "C20_pending_operations_end", "C20_closed_forever", "C20_no_connect_no_write_after_close", "C20_close_pending_only_when_closed",
+            "C20_pending_end", "C20_closed_means", "C20_no_timers_after_close", "C20_pending_requests_fail", "C20_pending_operations_end", "C20_closed_forever", "C20_no_connect_no_write_after_close", "C20_close_pending_only_when_closed",
             "C20_close_awaits_every_closing_client", "C20_close_fires_not_before", "C20_close_pending_means_closing", "C20_close_fires_last",
             "C20_close_fires_once"]
 WHICH = ("C20",)
